@@ -1567,6 +1567,7 @@ private:
       // Since the error has already been handled in _populate_formatted_log_message,
       // there is no additional action required here.
     }
+    QUILL_CATCH_ALL() {}
 #endif
   }
 
@@ -1596,6 +1597,17 @@ private:
         fmtquill::format(R"([Could not format log statement. message: "{}", location: "{}", error: "{}"])",
                          transit_event->macro_metadata->message_format(),
                          transit_event->macro_metadata->short_source_location(), e.what());
+
+      transit_event->formatted_msg->append(error);
+      _options.error_notifier(error);
+    }
+    QUILL_CATCH_ALL()
+    {
+      // a user formatter may throw something that is not derived from std::exception
+      transit_event->formatted_msg->clear();
+      std::string const error = fmtquill::format(
+        R"([Could not format log statement. message: "{}", location: "{}", error: "unknown exception"])",
+        transit_event->macro_metadata->message_format(), transit_event->macro_metadata->short_source_location());
 
       transit_event->formatted_msg->append(error);
       _options.error_notifier(error);
